@@ -2,7 +2,7 @@
 //! binds spec/Tracker.tla to `radicle::cob::issue::Issue` and `radicle::cob::patch::Patch`.
 //!
 //! Abstract ops of the model -- `[actor, doc, kind, x, y, z]` -- are concretised as real `Op`s
-//! (built with `radicle::cob::test::Actor`, real keys, real entry ids) that refer to real identity
+//! (built the way `radicle::cob::test::Actor` builds them: real keys, fresh entry ids) that refer to real identity
 //! document commits in a real repository (`Op::identity_doc` -> `Repository::identity_doc_at`),
 //! and applied through `store::Cob::from_root` / `store::Cob::op`. Merges consult real
 //! `refs/namespaces/<actor>/refs/heads/master` references and a real commit graph.
